@@ -180,6 +180,16 @@ class World:
     def request(self, tag, targets, runid=None):
         schedule.organize(task_names={tag}, targets=set(targets), event='command-run requested by user', runid=runid)
 
+    def timer(self, tag):
+        """a periodic event of `tag` becomes due: the real schedule.defer() queues it"""
+        node = self.nodes[tag]
+        del schedule.per[:]
+        schedule.per.append(node)
+        node.set('period', [dawgie.EVENT(dawgie.ALG_REF(None, None), dawgie.MOMENT(True, None, None, None, None))])
+        del schedule.booted[:]
+        node.attrib.pop('fired', None)
+        schedule.defer()
+
     def add_worker(self, rev='r1', incarnation=1):
         h = farm.Hand(Addr(f'w{len(self.hands)}', 1))
         h.transport = FakeTransport()
